@@ -120,7 +120,13 @@ func init() {
 // regex generator (RE2 syntax) with the words of the file as raw material.
 func genRegex(rng *rand.Rand, words []string) string {
 	w := func() string { return regexp.QuoteMeta(words[rng.Intn(len(words))]) }
-	switch rng.Intn(20) {
+	switch rng.Intn(23) {
+	case 20:
+		return "^" + w() + "$" // a literal anchored at both ends: whole-line match only
+	case 21:
+		return `\A` + w() + `\z`
+	case 22:
+		return "^" + w() + " " + w() + "$"
 	case 16:
 		return w() + "  " + w() // a run of blanks is part of the pattern
 	case 17:
